@@ -17,6 +17,7 @@ import (
 	"github.com/pion/interceptor"
 	"github.com/pion/interceptor/pkg/nack"
 	"github.com/pion/interceptor/pkg/verifhooks"
+	"github.com/pion/logging"
 	"github.com/pion/rtcp"
 	"github.com/pion/rtp"
 )
@@ -768,7 +769,17 @@ func (h *c04harn) flush(o *Out) {
 	h.mu.Unlock()
 }
 
+// c04quietLogs: a logger factory that prints nothing (a third option for the application's option list).
+func c04quietLogs() logging.LoggerFactory {
+	lf := logging.NewDefaultLoggerFactory()
+	lf.DefaultLogLevel = logging.LogLevelDisabled
+	return lf
+}
+
 func c04runResponder(t *testing.T, ops []string, o *Out) {
+	app, ops := appOf(ops)
+	// what the application bound, per SSRC: its description of the stream and the object it handed to Bind
+	descs, lives := map[uint32]*interceptor.StreamInfo{}, map[uint32]*interceptor.StreamInfo{}
 	h := &c04harn{resumeCh: make(chan struct{})}
 	var icpt interceptor.Interceptor
 	var reader interceptor.RTCPReader
@@ -800,7 +811,8 @@ func c04runResponder(t *testing.T, ops []string, o *Out) {
 				continue
 			}
 			pf := verifhooks.NewPacketFactoryCopySeq(rtp.NewFixedSequencer(uint16(r0)))
-			f, _ := nack.NewResponderInterceptor(nack.ResponderSize(uint16(n)), nack.VerifResponderPacketFactoryCopy(pf))
+			f, _ := nack.NewResponderInterceptor(appShuffle(app, []nack.ResponderOption{
+				nack.ResponderSize(uint16(n)), nack.VerifResponderPacketFactoryCopy(pf), nack.WithResponderLoggerFactory(c04quietLogs())})...)
 			i, err := f.NewInterceptor("")
 			if icpt != nil {
 				resume()
@@ -844,8 +856,10 @@ func c04runResponder(t *testing.T, ops []string, o *Out) {
 				o.P("bad-op")
 				continue
 			}
-			info := &interceptor.StreamInfo{SSRC: uint32(ssrc), SSRCRetransmission: uint32(rs), PayloadTypeRetransmission: uint8(rp),
+			desc := &interceptor.StreamInfo{SSRC: uint32(ssrc), SSRCRetransmission: uint32(rs), PayloadTypeRetransmission: uint8(rp),
 				RTCPFeedback: fbl}
+			info := app.BindInfo(desc)
+			descs[desc.SSRC], lives[desc.SSRC] = desc, info
 			before := *info
 			before.RTCPFeedback = append([]interceptor.RTCPFeedback(nil), fbl...)
 			writers = append(writers, icpt.BindLocalStream(info, &c04bottom{h, len(writers)}))
@@ -861,6 +875,7 @@ func c04runResponder(t *testing.T, ops []string, o *Out) {
 					}
 				}
 			}
+			app.AfterBind(info) // Bind has returned: the object is the application's again
 		case name == "write" && icpt != nil:
 			w, ok := c04num(m, "w", 1<<31)
 			hdr := c04parseHdr(m)
@@ -931,7 +946,13 @@ func c04runResponder(t *testing.T, ops []string, o *Out) {
 				o.P("bad-op")
 				continue
 			}
-			icpt.UnbindLocalStream(&interceptor.StreamInfo{SSRC: uint32(ssrc)})
+			// the stream is named by its SSRC: a StreamInfo rebuilt from it alone, or (app op) any other value the
+			// application may hold for that SSRC by now
+			ui := &interceptor.StreamInfo{SSRC: uint32(ssrc)}
+			if desc := descs[ui.SSRC]; app != nil && desc != nil {
+				ui = app.UnbindInfo(desc, lives[ui.SSRC])
+			}
+			o.InfoGuard("UnbindLocalStream", ui, func() { icpt.UnbindLocalStream(ui) })
 		case op == "close" && icpt != nil:
 			h.mu.Lock()
 			waiting, held := h.closeWaiting, h.hold && h.blocked
@@ -1201,4 +1222,16 @@ func init() {
 			synctest.Test(t, func(t *testing.T) { c04runResponder(t, ops, o) })
 		},
 	})
+	// the application of the case (streaminfo_test.go): the StreamInfo it hands to Unbind, what it does with its
+	// StreamInfo after Bind, the order of its option list
+	c := comps["responder"]
+	gen := c.Gen
+	c.Gen = func(r *Rng, tier string, idx int) Case {
+		ar := NewRng(r.s ^ 0xA9904)
+		cs := gen(r, tier, idx)
+		if cs.Class != "badsize" && ar.Chance(3, 4) {
+			cs.Ops = withApp(cs.Ops, genApp(ar, 3, 2, 0, 3))
+		}
+		return cs
+	}
 }
